@@ -1,14 +1,59 @@
+# C12 - roster view = last full roster + authorised pushes (QXmppRosterManager)
 TUS = ['src/base/QXmppRosterIq.cpp', 'src/base/QXmppIq.cpp', 'src/base/QXmppStanza.cpp', 'src/base/QXmppUtils.cpp',
        'src/base/QXmppPresence.cpp', 'src/base/QXmppMucIq.cpp', 'src/client/QXmppClientExtension.cpp']
-def I(name, **kw):
-    d = dict(name=name, entry='h_' + name, unwind=7, timeout_s=150, mem_gb=6, bound=''); d.update(kw); return d
+MODELS = ['qt_core.c', 'qt_list.c', 'qt_dom.c', 'models.c']
+B_PRE = 'pre-state: 2 roster slots (each used or not; keys <= 3 arbitrary UTF-16 units, name <= 1 unit, any subscription value), received flag arbitrary'
+B_IQ = 'iq: type attribute any string <= 6 units, id <= 2 units, own bare JID 1..3 units without "/"; items: jid <= 3 units, name <= 1 unit, subscription in {absent/empty, none, both, from, to, remove}'
+def I(name, bound, **kw):
+    d = dict(name=name, entry='h_' + name, unwind=7, timeout_s=240, mem_gb=6, bound=bound); d.update(kw); return d
 SPEC = dict(
     property='C12',
     groups=[
-        dict(name='roster', harness='h.cpp', tus=TUS, models=['qt_core.c', 'qt_list.c', 'qt_dom.c', 'models.c'], shadow_task=True,
-             instances=[I(n) for n in ['push_unauth_n1', 'push_unauth_n2', 'push_auth_nofrom_n2', 'push_auth_from_n2', 'push_auth_from_n1', 'push_auth_from_n0', 'connected', 'connected_result_new', 'connected_result_resumed', 'connected_error', 'disconnected', 'presence']]),
-        dict(name='dbg', harness='h.cpp', tus=TUS, models=['qt_core.c', 'qt_list.c', 'qt_dom.c', 'models.c'], shadow_task=True, cxxdefs={'C12_DEBUG': 1},
-             instances=[I('dbg1', tiers=('thorough',)), I('dbg2', tiers=('thorough',)), I('dbg6', tiers=('thorough',), timeout_s=40), I('dbg3', tiers=('thorough',), timeout_s=100), I('dbg4', tiers=('thorough',), timeout_s=100)]),
+        dict(name='roster', harness='h.cpp', tus=TUS, models=MODELS, shadow_task=True,
+             instances=[
+                 I('push_unauth_n1', 'from present, any string <= 5 units whose bare part differs from the own bare JID; 1 item; ' + B_IQ + '; ' + B_PRE),
+                 I('push_unauth_n2', 'as push_unauth_n1 with 2 items'),
+                 I('push_auth_nofrom_n2', 'no from attribute; 2 items; ' + B_IQ + '; ' + B_PRE),
+                 I('push_auth_from_n2', 'from present: empty, own bare JID, or own bare JID + "/" + any resource (<= 5 units in total); 2 items'),
+                 I('push_auth_from_n1', 'as push_auth_from_n2 with 1 item'),
+                 I('push_auth_from_n0', 'as push_auth_from_n2 with no item'),
+                 I('connected', 'stream-management state in {none, new, resumed}, authenticated or not; ' + B_PRE + '; presence table 2 contacts x 1 resource (each used or not)'),
+                 I('connected_result_new', 'new stream (state NewStream), authenticated; then the roster result with 2 items (no subscription=remove)'),
+                 I('connected_result_resumed', 'resumed stream whose roster was not yet received; then the roster result with 2 items'),
+                 I('connected_error', 'new stream, authenticated; the roster request fails (QXmppError)'),
+                 I('disconnected', 'stream-management state in {none, new, resumed}; ' + B_PRE + '; presence table 2 contacts x 1 resource'),
+                 I('presence', 'presence table 2 contacts (bare JID 1..2 units) x 1 resource (<= 2 units), each used or not; stanza: from any string <= 5 units, type any but subscribe', mem_gb=8),
+             ]),
+        dict(name='roster_r2', harness='h.cpp', tus=TUS, models=MODELS, shadow_task=True, cxxdefs={'PRES_NRES': 2},
+             instances=[I('presence_r2', 'as presence with 2 resources per contact in the pre-state', entry='h_presence', tiers=('thorough',), timeout_s=400, mem_gb=12)]),
     ],
-    bounds=[], assumptions=[], outside=[],
+    bounds=[
+        'single steps from an arbitrary valid pre-state (no histories): one roster IQ / one connect (+ the answer to its roster request) / one disconnect / one presence',
+        B_PRE, B_IQ,
+        'from attribute of a roster IQ: absent, or any string <= 5 UTF-16 units (covers empty, own bare, own full with resources up to 3 units, domain, stranger, prefix/suffix/case look-alikes of those lengths)',
+        'roster IQ shape fixed per instance: exactly one <query xmlns=jabber:iq:roster> child with 0, 1 or 2 <item> children carrying jid/name/subscription attributes',
+        'presence table: 2 contacts x 1 resource (quick) / x 2 resources (thorough), map capacity 3; roster map capacity 4',
+        'the view is compared with the reference at one solver-chosen probe key of maximal length (all stored keys are within that length), which is equivalent to comparing all keys',
+    ],
+    assumptions=[
+        'QDomElement::attribute(name) yields the empty string for an absent attribute (Qt contract): absent and empty id/jid/name/subscription/type attributes are the same input; for from the absent case is exercised separately',
+        'the configured own bare JID is non-empty and contains no "/" (it is user@domain of a connected client)',
+        'representation invariant of the pre-state: roster entries are stored under their own bare JID, keys are distinct, presences are stored under non-empty bare JIDs',
+        'the answer handed to the roster-request continuation is what QXmppClient::sendIq promises: the response element or a QXmppError; a roster result carries no subscription=remove items (RFC 6121 2.1.4)',
+        'QXmppTask/QXmppPromise shadow (contract discharged by C13); the context object (the manager) is alive',
+        'QXmppClient is environment: configuration().jidBare()/jid(), streamManagementState(), isAuthenticated() return harness-chosen values; sendPacket()/sendIq() serialise the stanza with its real toXml() into the writer tree model and log it; sendPacket may return either value',
+        'signals of the manager (moc output in the real build) are a ghost log',
+        'QMap<QString,Item>, QMap<QString,QMap<QString,QXmppPresence>>, QMap<QString,QXmppPresence> are the class-level slot map of vp_slotmap.h (value semantics, lookup by key equality, capacity asserted, no ordering)',
+        '~QString does not decrement the reference count (string blocks are never recycled; over-counted references only force copies where Qt would modify in place)',
+    ],
+    outside=[
+        'sequences of more than one event (the inductive step from an arbitrary valid pre-state carries the property); larger item counts / longer strings than the bounds',
+        'a from attribute equal to the server domain is treated like any other foreign sender (RFC 6121 2.1.6: only no from or the own bare JID); the real code agrees',
+        'roster item details beyond jid/name/subscription: groups (QSet/QHash is not modelled: <group/> children are never fed), ask, approved, MIX annotations and channel elements, roster versioning',
+        'subscription values outside RFC 6121 (anything but none/to/from/both/remove) and roster IQs with extra or misplaced children',
+        'presences of type subscribe (subscription-request handling, QXmppMovedManager, auto-accept) and the contents of the stored QXmppPresence objects',
+        'order of getRosterBareJids()/getResources() (the map model is unordered) and the QStringList-returning accessors themselves; the view is read from the private maps',
+        'a roster result of an EARLIER session arriving after a new session started (pending IQs are failed by the client on disconnect: C07/C10)',
+        'QObject plumbing: constructor, connect(), onRegistered/import-export of roster data',
+    ],
 )
